@@ -338,6 +338,44 @@ fn password_lengths<B: Backend, P: Prims>(opts: &Opts, rep: &mut Report) {
     }
 }
 
+/// PIE blobs made by wrapping-key objects obtained in every way (raw, text, clone, unwrapped, unsealed)
+/// are the specification's blob for the key bytes the object exposes and its embedded nonce
+fn derived_wrapping_keys<B: Backend, P: Prims>(opts: &Opts, rep: &mut Report) {
+    if !opts.wants_backend(B::NAME) || (opts.shard != 11 % opts.nshards && opts.only.is_none()) {
+        return;
+    }
+    let mut rng = Rng::derive(opts.seed, "c07.derived", B::VER as u64 + if B::FAMILY == Family::Ffi { 10 } else { 0 });
+    for round in 0..opts.size(6, 60) {
+        let key: [u8; 32] = rng.arr();
+        let inner: [u8; 32] = rng.arr();
+        for (how, k) in derived_local_keys::<B>(&key, &mut rng, B::VER != 1 || round == 0) {
+            let Ok(k) = k else { continue };
+            let hdr = Wk::PieLocal.header(B::VER);
+            let d = |what: &str, blob: &str| json!({"backend": B::NAME, "wrapping_key_obtained_by": how, "wrapping_key": hx(&key), "what": what, "blob": blob});
+            match guard(|| pie_wrap_local(&local_key::<B>(&inner), &k)) {
+                Ok(Ok(blob)) => {
+                    let (_, body) = split_paserk(&blob);
+                    let tl = if B::VER % 2 == 1 { 48 } else { 32 };
+                    if body.len() >= tl + 32 {
+                        let nonce: [u8; 32] = body[tl..tl + 32].try_into().unwrap();
+                        if r::pie_wrap::<P>(B::VER, &hdr, &key, &nonce, &inner) != body {
+                            rep.violation(&format!("C07|{}|local-wrap.pie|differs-from-reference:wrapping-key-{how}", B::NAME), d("blob is not what the specification prescribes for the exposed wrapping-key bytes", &blob));
+                        }
+                    }
+                }
+                _ => rep.violation(&format!("C07|{}|local-wrap.pie|wrap-error:wrapping-key-{how}", B::NAME), d("wrap failed", "")),
+            }
+            // a reference-built blob is opened by the object
+            let text = join_paserk(&hdr, &r::pie_wrap::<P>(B::VER, &hdr, &key, &rng.arr(), &inner));
+            let res = guard(|| text.parse::<paseto_core::paserk::PieWrappedKey<B, paseto_core::version::Local>>().and_then(|w| w.unwrap(&k)).map(|x| key_bytes(&x)));
+            if !matches!(res, Ok(Ok(x)) if x == inner) {
+                rep.violation(&format!("C07|{}|local-wrap.pie|reference-blob-rejected:wrapping-key-{how}", B::NAME), d("a specification-conforming blob is refused by this key object", &text));
+            }
+            rep.case(&format!("{}.local-wrap.pie.derived-wrapping-key-{how}", B::NAME), fnv_parts(&[B::NAME.as_bytes(), how.as_bytes(), &key, &inner]), true);
+        }
+    }
+}
+
 /// sibling backends unwrap each other's output
 fn siblings<A: Backend, B: Backend>(opts: &Opts, rep: &mut Report) {
     if !(opts.wants_backend(A::NAME) && opts.wants_backend(B::NAME)) {
@@ -409,6 +447,12 @@ pub fn run(opts: &Opts) {
         pbkw_sequences::<V4, Ffi>(opts, &mut rep);
         pbkw_sequences::<V3Lc, Rc>(opts, &mut rep);
         pbkw_sequences::<V4Na, Rc>(opts, &mut rep);
+        derived_wrapping_keys::<V1, Ffi>(opts, &mut rep);
+        derived_wrapping_keys::<V2, Ffi>(opts, &mut rep);
+        derived_wrapping_keys::<V3, Ffi>(opts, &mut rep);
+        derived_wrapping_keys::<V4, Ffi>(opts, &mut rep);
+        derived_wrapping_keys::<V3Lc, Rc>(opts, &mut rep);
+        derived_wrapping_keys::<V4Na, Rc>(opts, &mut rep);
         password_lengths::<V1, Ffi>(opts, &mut rep);
         password_lengths::<V2, Ffi>(opts, &mut rep);
         password_lengths::<V3, Ffi>(opts, &mut rep);
